@@ -8,3 +8,10 @@ Definition SliceToArray (words : list Z) (from to : Z) : option (list Z) :=
   | None => None
   | Some r => ToArray r
   end.
+
+(** [bitmap.Slice(bitmap.Slice(words, a, b), c, d)] *)
+Definition SliceSlice (words : list Z) (a b c d : Z) : option (list Z) :=
+  match Slice words a b with
+  | None => None
+  | Some r => Slice r c d
+  end.
